@@ -29,6 +29,9 @@ type c06Case struct {
 	// Reuse: the Message was used for a larger message, Reset, and the attribute is added BEFORE WriteHeader
 	// (the idiom of the library's own benchmarks): Raw and Length are out of step while the setter runs
 	Reuse bool `json:"reuse,omitempty"`
+	// Cap: the caller supplies the storage: Raw has capacity 20+4+len(value)+Cap-1, which ends inside or right behind
+	// the attribute's padding (0 = the library allocates)
+	Cap int `json:"cap,omitempty"`
 }
 
 func c06Pre(pre int) {
@@ -194,6 +197,16 @@ func c06Check1(k c06Case) (string, string) {
 	if k.Reuse {
 		_ = m.Build(stun.BindingRequest, stun.NewTransactionIDSetter([12]byte{0xEE, 0xEE, 0xEE, 0xEE}), stun.Software(bytes.Repeat([]byte{0xEE}, 700)), stun.Realm(bytes.Repeat([]byte{0xEE}, 700)))
 		m.Reset()
+	}
+	if k.Cap > 0 {
+		vl := k.Len
+		switch k.Kind {
+		case "errcode":
+			vl = 4 + k.Len
+		case "unknown":
+			vl = 2 * len(k.Types)
+		}
+		m.Raw = make([]byte, 0, 20+4+vl+k.Cap-1)
 	}
 	m.TransactionID = tid
 	m.Type = stun.BindingSuccess
@@ -474,6 +487,37 @@ func c06Check1(k c06Case) (string, string) {
 		if code, r, rerr := ref.DecodeErrorCode(v); rerr != nil || code != k.Code || !bytes.Equal(r, reason) {
 			return "errcode-ref-decode", fmt.Sprintf("reference decoder reads code %d", code)
 		}
+		// the shorthand with the default reason: what a caller does to the Reason it read back (it views that message)
+		// does not change the phrase later messages carry
+		if k.Len == 0 && c09Codes[k.Code] {
+			phrase := func() ([]byte, *stun.ErrorCodeAttribute, error) {
+				b := new(stun.Message)
+				b.WriteHeader()
+				if err := stun.ErrorCode(k.Code).AddTo(b); err != nil {
+					return nil, nil, err
+				}
+				d, derr := decodeCopy(b.Raw)
+				if derr != nil {
+					return nil, nil, derr
+				}
+				g := new(stun.ErrorCodeAttribute)
+				if err := g.GetFrom(d); err != nil {
+					return nil, nil, err
+				}
+				return append([]byte(nil), g.Reason...), g, nil
+			}
+			r1, g1, err1 := phrase()
+			if err1 != nil {
+				return "errcode-default-reason", fmt.Sprintf("ErrorCode(%d).AddTo / GetFrom: %v", k.Code, err1)
+			}
+			for i := range g1.Reason {
+				g1.Reason[i] = '#' // the caller edits what it got (lower-cases it, redacts it)
+			}
+			r2, _, err2 := phrase()
+			if err2 != nil || !bytes.Equal(r1, r2) {
+				return "errcode-default-reason", fmt.Sprintf("ErrorCode(%d).AddTo carried %q; after a caller overwrote the Reason it had read from that message, the next message carries %q (err %v)", k.Code, r1, r2, err2)
+			}
+		}
 	case "unknown":
 		list := make(stun.UnknownAttributes, len(k.Types))
 		for i, t := range k.Types {
@@ -668,6 +712,20 @@ func init() {
 				for _, ip := range ips {
 					do(c06Case{Kind: "xor", Attr: 0x0020, IP: ip, Port: 0, TID: tids[0], Pre: pre}, "xor/after-other")
 					do(c06Case{Kind: "mapped", Attr: 0x0001, IP: ip, Port: 0, TID: tids[0], Pre: pre}, "mapped/after-other")
+				}
+			}
+			// caller-supplied storage whose capacity ends inside the attribute's padding
+			for capx := 1; capx <= 4; capx++ {
+				for l := 0; l <= 40; l++ {
+					do(c06Case{Kind: "text", Attr: 0x0006, Len: l, Filler: 0x41, TID: tids[2], Cap: capx}, "text/caller-capacity")
+					do(c06Case{Kind: "errcode", Code: 438, Len: l, TID: tids[2], Cap: capx}, "errcode/caller-capacity")
+				}
+				for n := 0; n <= 9; n++ {
+					ts := make([]uint16, n)
+					for j := range ts {
+						ts[j] = uint16(0x8000 + j)
+					}
+					do(c06Case{Kind: "unknown", Types: ts, TID: tids[2], Cap: capx}, "unknown/caller-capacity")
 				}
 			}
 			// every kind again on a Message that was used, Reset, and gets its header only after the attribute
